@@ -155,7 +155,9 @@ def strategy(spec, ctx):
         small = st.one_of(dsl.tree_strategy([f for f in dsl.ALL_FEATURES if f not in ('anchor', 'look')], max_leaves=2), dsl.hostile_tree(4))
         anchors = st.tuples(st.sampled_from(['start', 'end', 'lstart', 'lend']), st.sampled_from(['class', 'method']),
                             small).map(lambda t: ['anchor', t[0], t[1], t[2]])
-        looks = st.tuples(st.sampled_from(['fb', 'pb', 'eb']), st.sampled_from(['class', 'method']), small,
+        # the match pattern may be empty: a lone lookaround, whose own text then starts the emitted pattern
+        lone = st.one_of(st.integers(0, len(dsl.EMPTY_SPELLINGS) - 1).map(lambda i: ['empty', i]), st.just(['lit', '', True]))
+        looks = st.tuples(st.sampled_from(['fb', 'pb', 'eb']), st.sampled_from(['class', 'method']), st.one_of(small, small, small, lone),
                           st.lists(st.tuples(dsl.literal_strategy(dsl.ALL_FEATURES, 1, 3), st.booleans()).map(
                               lambda t: ['lit', t[0], t[1]]), min_size=1, max_size=2)).map(
             lambda t: ['look', t[0], t[1], t[2], t[3]])
@@ -174,19 +176,48 @@ def enumerated(maxlen, part, parts):
                 i += 1
 
 
+GRID_QUANTS = [QUANTS[i] for i in (0, 2, 4, 8, 10, 11, 13, 15, 18, 20, 23, 25, 26)]      # one of each kind / spelling, repeating and not
+
+
+def assertion_grid(part, parts):
+    """Every direct assertion shape x every printable ASCII character (and a few pairs) as the text next to the assertion
+    syntax x a quantifier of every kind: anchors on c, lookarounds with match c / assertion c, and *lone* lookarounds
+    (empty match pattern), whose own text - '(?=' + c - is what the emitted pattern starts with."""
+    chars = [chr(c) for c in range(32, 127)] + ['\n', '\t', '\x00', '\u00e9', '!=', '<!', '=!', '<=', '?!', '!a', ':a', 'P<', '#)']
+    i = 0
+    for c in chars:
+        lit = ['lit', c, True]
+        shapes = [['anchor', k, 'class', lit] for k in ('start', 'end', 'lstart', 'lend')]
+        for k in ('fb', 'pb', 'eb', 'nfb', 'npb', 'neb'):
+            shapes.append(['look', k, 'class', ['lit', 'x', True], [lit]])
+            shapes.append(['look', k, 'method', lit, [['lit', 'y', True]]])
+            if k in ('fb', 'pb', 'eb'):
+                shapes.append(['look', k, 'class', ['empty', 0], [lit]])        # lone lookaround
+                shapes.append(['look', k, 'class', ['lit', '', True], [lit, ['lit', 'z', True]]])
+        for shape in shapes:
+            for q in GRID_QUANTS:
+                if i % parts == part:
+                    yield {'op': shape, 'q': list(q)}
+                i += 1
+
+
 def shards(tier):
     quick = tier == 'quick'
-    out = []
+    out = [{'mode': 'assertion_grid', 'part': k, 'parts': 2} for k in range(2)]
     parts = 4 if quick else 16
     for part in range(parts):
         out.append({'mode': 'enumerate', 'maxlen': 2 if quick else 3, 'part': part, 'parts': parts})
-    for mode in ('literal', 'assertion_free', 'direct', 'collision'):
-        for _ in range(3 if quick else 12):
+    for mode, n in (('literal', 2), ('assertion_free', 3), ('direct', 3), ('collision', 2)):
+        for _ in range(n if quick else 12):
             out.append({'mode': mode, 'examples': 1200 if quick else 8000})
     return out
 
 
 def run_shard(spec, ctx):
+    if spec['mode'] == 'assertion_grid':
+        run_enumeration(ctx, assertion_grid(spec['part'], spec['parts']), check_case,
+                        'direct assertion shapes (anchors, lookarounds, lone lookarounds) x 108 texts next to the assertion syntax x 13 quantifiers (part)')
+        return
     if spec['mode'] == 'enumerate':
         run_enumeration(ctx, enumerated(spec['maxlen'], spec['part'], spec['parts']), check_case,
                         f"all literals of length <= {spec['maxlen']} over {len(ALPHABET)} chars x {len(QUANTS)} quantifier spellings")
